@@ -784,7 +784,7 @@ theorem history_keeps : ∀ (ops : List Op) (w : World), Inv S v0 w → CoveredH
 
 /-- the invariant at the beginning of a transaction -/
 theorem Inv.init {w : World} (hg : S.G w.fs) (hinfos : w.infos = []) : Inv S (S.view .base w.fs) w := by
-  refine ⟨hg, ⟨w.fs, hg, rfl⟩, ?_, ?_, fun _ _ _ => rfl, ?_, ?_, ?_⟩
+  refine ⟨hg, S.goodView hg .base, ?_, ?_, fun _ _ _ => rfl, ?_, ?_, ?_⟩
   · intro p oi h; rw [hinfos] at h; cases h
   · rw [hinfos]; exact List.nodup_nil
   · intro k _ h; rw [hinfos] at h; cases h
